@@ -69,15 +69,68 @@ impl Operator for KeepMine {
     }
 }
 
+/// Where to inject a panic: at probe `probe`, on the replica with global id `gid` (modulo the
+/// number of replicas), when it is about to forward its `at`-th data element (1-based), or, with
+/// `at == 0`, its FlushAndRestart.
+#[derive(Clone, Debug)]
+pub struct FaultSpec {
+    pub probe: u32,
+    pub gid: u64,
+    pub at: usize,
+    /// filled when the fault fires: (replica, id of the element that was not forwarded)
+    pub fired: Arc<Mutex<Option<(crate::obs::C3, u64)>>>,
+}
+
+struct FaultProbe {
+    spec: FaultSpec,
+    ctx: Option<crate::probe::ProbeCtx>,
+    count: usize,
+}
+
+impl crate::probe::Probe<Rec> for FaultProbe {
+    fn fork(&self) -> Box<dyn crate::probe::Probe<Rec>> {
+        Box::new(FaultProbe { spec: self.spec.clone(), ctx: None, count: 0 })
+    }
+    fn setup(&mut self, ctx: crate::probe::ProbeCtx) {
+        self.ctx = Some(ctx);
+    }
+    fn see(&mut self, el: &StreamElement<Rec>) {
+        let Some(ctx) = self.ctx else { return };
+        if ctx.global_id != self.spec.gid % ctx.replicas.max(1) {
+            return;
+        }
+        let hit = match el {
+            StreamElement::Item(r) | StreamElement::Timestamped(r, _) => {
+                self.count += 1;
+                (self.spec.at != 0 && self.count == self.spec.at).then_some(r.id)
+            }
+            StreamElement::FlushAndRestart => (self.spec.at == 0).then_some(0),
+            _ => None,
+        };
+        if let Some(id) = hit {
+            *self.spec.fired.lock().unwrap() = Some((ctx.coord, id));
+            panic!("injected user-function fault at probe {} replica {:?}", self.spec.probe, ctx.coord);
+        }
+    }
+}
+
 #[derive(Clone)]
 pub struct BuildCtx {
     pub traces: TraceSink,
     pub for_each: Arc<Mutex<HashMap<Var, Vec<Rec>>>>,
     pub probes: bool,
+    pub fault: Option<FaultSpec>,
+    /// sink handles are also stored here (so that they survive a panicking execute_blocking)
+    pub handles: Option<Arc<Mutex<Vec<(usize, Var, SinkKind, SinkHandle)>>>>,
 }
 
 impl BuildCtx {
     fn probe(&self, s: BStream<Rec>, id: u32, label: &str) -> BStream<Rec> {
+        if let Some(f) = &self.fault {
+            if f.probe == id {
+                return s.probed(Box::new(FaultProbe { spec: f.clone(), ctx: None, count: 0 }));
+            }
+        }
         if self.probes {
             s.probed(RecProbe::new(id, label, &self.traces))
         } else {
@@ -255,6 +308,17 @@ pub fn build_op(
         UOp::MapMemo { m } => s
             .map_memo_by(move |r: Rec| f_memo(f_memo_key(&r, m)), move |r: &Rec| f_memo_key(r, m), 16)
             .boxed(),
+        UOp::SplitZip { m, filter_left } => {
+            let mut parts = s.split(2).into_iter();
+            let a = parts.next().unwrap();
+            let b = parts.next().unwrap();
+            let keep = move |r: &Rec| r.v.rem_euclid(m) != 0;
+            if filter_left {
+                a.filter(keep).zip(b).map(|_| f_zip_anon()).boxed()
+            } else {
+                a.zip(b.filter(keep)).map(|_| f_zip_anon()).boxed()
+            }
+        }
         UOp::Replay { rounds, body, stop_m, stop_r } => {
             let init = LState::default();
             let cx2 = cx.clone();
@@ -337,6 +401,12 @@ pub fn build_program(
                     (JoinShip::BroadcastRight, JoinLocal::SortMerge, JoinKind::Inner) => l.join_with(r, kf, kf).ship_broadcast_right().local_sort_merge().inner().map(inner).boxed(),
                     (JoinShip::BroadcastRight, JoinLocal::SortMerge, JoinKind::Left) => l.join_with(r, kf, kf).ship_broadcast_right().local_sort_merge().left().map(left).boxed(),
                     (JoinShip::BroadcastRight, _, JoinKind::Outer) => panic!("broadcast outer join does not exist"),
+                    (JoinShip::KeyedMixed, _, _) => l
+                        .group_by(kf)
+                        .join(r.group_by_reduce(kf, |x, y| rec_reduce(Agg::Sum, x, y)))
+                        .unkey()
+                        .map(inner)
+                        .boxed(),
                     (JoinShip::Keyed, _, JoinKind::Outer) => l.group_by(kf).join_outer(r.group_by(kf)).unkey().map(outer).boxed(),
                     (JoinShip::Keyed, _, _) => l.group_by(kf).join(r.group_by(kf)).unkey().map(inner).boxed(),
                 };
